@@ -359,6 +359,58 @@ pub fn replay_flow(case: &Value, rep: &mut Report) {
                     Ok(y) => {
                         if let Some(d) = diff_spec_value(&y, &eval["y"]) {
                             rep.mismatch(prop, "block_output", &id, json!({"diff": d, "cfg": case["cfg"]}), case);
+                            continue;
+                        }
+                    }
+                }
+                // C01: per-copy parameter gradients of blocks without internal skips = gradients of the unrolled network
+                if bool_of(eval, "kinkfree") {
+                    let g = spec_value_tensor(&eval["g"]);
+                    rep.checks += 1;
+                    rep.count("feedback_gradient_cases", 1);
+                    let res = guarded(|| {
+                        let (pre, post, max, fbs) = net.forward(&x);
+                        net.verif_backward(g, &pre, &post, &max, fbs)
+                    });
+                    match res {
+                        Err(e) => rep.mismatch("C01", "feedback_backward_panicked", &id, json!({"panic": e, "cfg": case["cfg"]}), case),
+                        Ok((wg, bg)) => {
+                            let layout = usizes(&eval["layout"]);
+                            let n = layout.len();
+                            let mut offset = 0usize;
+                            'outer: for i in 0..n {
+                                // gradient tensors of layer i, in forward order of its unrolled layers
+                                let (ws, bs): (Vec<Tensor>, Vec<Option<Tensor>>) = if layout[i] == 1 && str_of(&layers[i], "kind") != "fb" {
+                                    (vec![wg[n - 1 - i].clone()], vec![bg[n - 1 - i].clone()])
+                                } else {
+                                    let mut w = wg[n - 1 - i].unnested();
+                                    let mut b = bg[n - 1 - i].as_ref().map(|t| t.unnestedoptional()).unwrap_or_default();
+                                    w.reverse();
+                                    b.reverse();
+                                    (w, b)
+                                };
+                                for j in 0..layout[i] {
+                                    let want = &eval["ugrads"][offset + j];
+                                    let is_pool = want["dw"].as_array().map(|a| a.is_empty()).unwrap_or(true);
+                                    if !is_pool {
+                                        let mut d = ws.get(j).and_then(|t| diff_exact(t, &want["dw"]));
+                                        if ws.get(j).is_none() {
+                                            d = Some("missing gradient".to_string());
+                                        }
+                                        if d.is_none() && eval["ubias"][offset + j].as_bool().unwrap_or(false) {
+                                            d = match bs.get(j).and_then(|b| b.as_ref()) {
+                                                Some(b) => diff_exact(b, &want["db"]),
+                                                None => Some("bias gradient missing".to_string()),
+                                            };
+                                        }
+                                        if let Some(d) = d {
+                                            rep.mismatch("C01", "feedback_block_gradient", &id, json!({"layer": i, "unrolled": j, "diff": d, "cfg": case["cfg"]}), case);
+                                            break 'outer;
+                                        }
+                                    }
+                                }
+                                offset += layout[i];
+                            }
                         }
                     }
                 }
